@@ -2,9 +2,12 @@ package vrt
 
 import (
 	"fmt"
+	"os"
+	"path/filepath"
 	"runtime/debug"
 	"sort"
 	"strings"
+	"sync"
 	"time"
 )
 
@@ -309,4 +312,72 @@ func (c *Case) Twins(n int, f func(sub *Case, r *Rng)) {
 			c.Sample = s.Sample
 		}
 	}
+}
+
+// ---- pinned witnesses of known findings ------------------------------------
+//
+// A known finding keyed by a class (operator, width relation ...) would hide
+// every other failure of that class. Where the failing inputs of a class can be
+// enumerated (exhaustive or fully deterministic regions of a check), the clean
+// tree's failing inputs are pinned in /verif/known_witnesses/<property>.txt
+// ("key<TAB>witness" lines, committed, never written by a registered command):
+// a failure of a known class is the known finding only if its witness is in the
+// pinned set; any other witness of the class is reported under
+// "<key>|new-witness". VERIF_DUMP_WITNESSES=<file> (a maintenance mode used to
+// produce the pinned files from the unchanged tree) appends every witness the
+// checks ask about to <file> and answers "known".
+
+var (
+	witOnce sync.Once
+	witSet  map[string]map[string]bool
+	witDump *os.File
+	witMu   sync.Mutex
+)
+
+func witLoad() {
+	witSet = map[string]map[string]bool{}
+	if f := os.Getenv("VERIF_DUMP_WITNESSES"); f != "" {
+		witDump, _ = os.OpenFile(f, os.O_APPEND|os.O_CREATE|os.O_WRONLY, 0o644)
+	}
+	files, _ := filepath.Glob(filepath.Join(Root, "known_witnesses", "*.txt"))
+	for _, fn := range files {
+		b, err := os.ReadFile(fn)
+		if err != nil {
+			continue
+		}
+		for _, ln := range strings.Split(string(b), "\n") {
+			k, w, ok := strings.Cut(ln, "\t")
+			if !ok {
+				continue
+			}
+			if witSet[k] == nil {
+				witSet[k] = map[string]bool{}
+			}
+			witSet[k][w] = true
+		}
+	}
+}
+
+// WitnessKey returns key when witness is a pinned witness of the known
+// finding key (or when the key has no pinned witnesses at all), else
+// key+"|new-witness".
+func WitnessKey(key, witness string) string {
+	witOnce.Do(witLoad)
+	if witDump != nil {
+		witMu.Lock()
+		fmt.Fprintf(witDump, "%s\t%s\n", key, witness)
+		witMu.Unlock()
+		return key
+	}
+	set := witSet[key]
+	if set == nil || set[witness] {
+		return key
+	}
+	return key + "|new-witness"
+}
+
+// HasPinnedWitnesses tells whether key has a pinned witness set.
+func HasPinnedWitnesses(key string) bool {
+	witOnce.Do(witLoad)
+	return witSet[key] != nil
 }
